@@ -26,6 +26,14 @@ PID = 'C17'
 TWO_PI = Fr(2 * np.pi)          # exact value of the double 2*pi, as production uses
 
 LAY4 = {'flux_surface': [0, 3, 1, 2], 'v_parallel': [0, 2, 1, 3], 'poloidal': [3, 2, 1, 0]}
+# user-defined orderings (each in a handler of its own): r not first but before v, r after v, ...
+CUSTOM4 = {'cust_1023': [1, 0, 2, 3], 'cust_2103': [2, 1, 0, 3], 'cust_1203': [1, 2, 0, 3], 'cust_3012': [3, 0, 1, 2]}
+ALL4 = dict(LAY4, **CUSTOM4)
+
+
+def lay4_for(layout):
+    """layout set of the 4-D handler that contains `layout`"""
+    return {layout: CUSTOM4[layout]} if layout in CUSTOM4 else dict(LAY4)
 LAY3 = [{'v_parallel_2d': [0, 2, 1], 'mode_solve': [1, 2, 0]}, {'v_parallel_1d': [0, 2, 1]}, {'poloidal': [2, 1, 0]}]
 
 
@@ -132,10 +140,10 @@ def work(item):
         def rankfn(comm):
             with warnings.catch_warnings():
                 warnings.simplefilter('ignore')
-                h4 = m['layout'].getLayoutHandler(comm, dict(LAY4), list(nprocs), eta)
+                h4 = m['layout'].getLayoutHandler(comm, lay4_for(layout), list(nprocs), eta)
                 sw = m['layout'].LayoutSwapper(comm, [dict(d) for d in LAY3], [list(nprocs), nprocs[0], nprocs[1]], eta[:3], 'mode_solve')
             out = {}
-            if layout in LAY4:
+            if layout in ALL4:
                 g = m['grid'].Grid(eta, [None] * 4, h4, layout, comm=comm, dtype=object)
                 dist.fill_grid(g, F)
                 L = h4.getLayout(layout)
@@ -184,7 +192,7 @@ def work(item):
         st.update(fd=fd, fixv=fixv, fd2=fd2, fixv2=fixv2)
 
         def rankfn(comm):
-            h4 = m['layout'].getLayoutHandler(comm, dict(LAY4), list(nprocs), eta)
+            h4 = m['layout'].getLayoutHandler(comm, lay4_for(layout), list(nprocs), eta)
             g = m['grid'].Grid(eta, [None] * 4, h4, layout, comm=comm, dtype=object)
             dist.fill_grid(g, F)
             if fd < 0:
@@ -208,7 +216,7 @@ def work(item):
         def rankfn(comm):
             with warnings.catch_warnings():
                 warnings.simplefilter('ignore')
-                h4 = m['layout'].getLayoutHandler(comm, dict(LAY4), list(nprocs), eta)
+                h4 = m['layout'].getLayoutHandler(comm, lay4_for(layout), list(nprocs), eta)
                 sw = m['layout'].LayoutSwapper(comm, [dict(d) for d in LAY3], [list(nprocs), nprocs[0], nprocs[1]], eta[:3], 'v_parallel_2d')
             g = m['grid'].Grid(eta, [None] * 4, h4, 'v_parallel', comm=comm, dtype=object)
             ph = m['grid'].Grid(eta[:3], [None] * 3, sw, 'v_parallel_2d', comm=comm, dtype=object)
@@ -242,7 +250,7 @@ def work(item):
         names = []
         if part == 'sums':
             F, P = st['F'], st['P']
-            if layout in LAY4:
+            if layout in ALL4:
                 for kname in ('l2', 'l1', 'n', 'ke'):
                     tot = K(0)
                     for o in val:
@@ -370,10 +378,10 @@ def float_replay(allm, item, st):
         def rankfn(comm):
             with warnings.catch_warnings():
                 warnings.simplefilter('ignore')
-                h4 = m['layout'].getLayoutHandler(comm, dict(LAY4), list(nprocs), eta)
+                h4 = m['layout'].getLayoutHandler(comm, lay4_for(layout), list(nprocs), eta)
                 sw = m['layout'].LayoutSwapper(comm, [dict(d) for d in LAY3], [list(nprocs), nprocs[0], nprocs[1]], eta[:3], 'mode_solve')
             out = {}
-            lay = layout if layout in LAY4 else 'v_parallel'
+            lay = layout if layout in ALL4 else 'v_parallel'
             g = m['grid'].Grid(eta, [None] * 4, h4, lay, comm=comm)
             dist.fill_grid(g, Fd)
             L = h4.getLayout(lay)
@@ -401,7 +409,7 @@ def float_replay(allm, item, st):
                     out['mn'], out['mx'] = g.getMin(0, [fd, fd2], [fixv, fixv2]), g.getMax(0, [fd, fd2], [fixv, fixv2])
                 else:
                     out['mn'], out['mx'] = g.getMin(0, fd, fixv), g.getMax(0, fd, fixv)
-            if layout not in LAY4:
+            if layout not in ALL4:
                 ph = m['grid'].Grid(eta[:3], [None] * 3, sw, layout, comm=comm, dtype=np.complex128)
                 dist.fill_grid(ph, Pd)
                 out['l2phi'] = m['norms'].l2(eta[:3], sw.getLayout(layout)).l2NormSquared(ph)
@@ -416,7 +424,7 @@ def float_replay(allm, item, st):
         outs = simmpi.World(nranks).run(rankfn)
         probs = []
         if part in ('sums', 'collector'):
-            keys = ['l2', 'l1', 'n', 'ke'] if layout in LAY4 or part == 'collector' else ['l2phi']
+            keys = ['l2', 'l1', 'n', 'ke'] if layout in ALL4 or part == 'collector' else ['l2phi']
             for kname in keys:
                 tot = sum(o[kname] for o in outs if kname != 'l2phi' or o.get('replica', 0) == 0)
                 if abs(tot - ref[kname]) > 1e-9 * max(1.0, abs(ref[kname])):
@@ -572,9 +580,14 @@ def main():
             if lay == 'poloidal' and False:
                 continue
             items.append(('sums', shape, grid, lay, None))
-        for lay in (['v_parallel', 'poloidal'] if quick else list(LAY4)):
+        for lay in (['v_parallel', 'flux_surface'] if quick else list(LAY4) + ['cust_1203']):
             items.append(('minmax', (3, 2, 3, 2), grid, lay, None))
         items.append(('collector', shape, grid, 'v_parallel', None))
+    # user-defined orderings of the four dimensions
+    for lay in (['cust_1023', 'cust_2103'] if quick else list(CUSTOM4)):
+        for grid in ([(2, 2)] if quick else [(2, 2), (1, 2), (3, 1)]):
+            items.append(('sums', shape, grid, lay, None))
+    items.append(('minmax', (3, 2, 3, 2), (2, 2), 'cust_1203', None))
     for cn in CANARIES:
         items.append((cn[3], shape if cn[3] == 'sums' else (3, 2, 3, 2), (2, 2), 'v_parallel', cn[:3]))
     # unit field -> analytic volume factor (exact rational identity evaluated through the real classes on rank (1,1))
